@@ -622,11 +622,15 @@ func c01Body(h byte, slots *[16]int, variant int) []byte {
 		if slots[l] < 0 {
 			return nil
 		}
-		return make([]byte, slots[l])
+		return c01Fill(slots[l])
 	case h&0x40 != 0: // definition
 		l := h & 0x0F
 		var d fitmodel.Def
-		switch variant % 3 {
+		switch variant % 5 {
+		case 3:
+			d = fitmodel.Def{Global: 0x0114} // zero fields, unknown message
+		case 4:
+			d = fitmodel.Def{Global: 12, Big: true} // zero fields, a known message whose first field is not a time (sport)
 		case 0:
 			d = fitmodel.Def{Global: 20, Fields: []fitmodel.FieldDef{{Num: 253, Size: 4, Base: fitmodel.Uint32}, {Num: 3, Size: 1, Base: fitmodel.Uint8}}}
 		case 1:
@@ -651,8 +655,17 @@ func c01Body(h byte, slots *[16]int, variant int) []byte {
 		if slots[l] < 0 {
 			return nil
 		}
-		return make([]byte, slots[l])
+		return c01Fill(slots[l])
 	}
+}
+
+// c01Fill: non-zero payload bytes (a zero timestamp field would never establish a time reference).
+func c01Fill(n int) []byte {
+	b := make([]byte, n)
+	for i := range b {
+		b[i] = byte(0x21 + i%7)
+	}
+	return b
 }
 
 func c01RecordHeaders(c *c01ctx) {
@@ -671,9 +684,12 @@ func c01RecordHeaders(c *c01ctx) {
 			}
 			variants := 1
 			if h1&0xC0 == 0x40 {
-				variants = 3
+				variants = 5
 			}
-			for v := 0; v < variants; v++ {
+			for v := 0; v < 2*variants; v++ {
+				// the second half of the variants runs after a prefix that has established a time reference
+				// (a record with an explicit timestamp on local 2) and left definitions on locals 2 and 3
+				primed := v >= variants
 				thirds := []int{-1}
 				if !w.Quick() {
 					for _, t := range depth3 {
@@ -687,6 +703,15 @@ func c01RecordHeaders(c *c01ctx) {
 					}
 					slots[0] = 1 // file_id definition on local 0
 					b := append([]byte{}, pre...)
+					if primed {
+						pd := recordDef(2, false)
+						b = append(b, pd.Bytes()...)
+						b = append(b, recordData(2, false, 1000000000, 70, 5)...)
+						slots[2] = pd.DataLen()
+						zd := fitmodel.Def{Local: 3, Global: 0x0114}
+						b = append(b, zd.Bytes()...)
+						slots[3] = 0
+					}
 					b = append(b, byte(h1))
 					b = append(b, c01Body(byte(h1), &slots, v)...)
 					b = append(b, byte(h2))
@@ -711,6 +736,9 @@ func c01RecordHeaders(c *c01ctx) {
 					lim := len(b)
 					if lim > 120 {
 						lim = 120
+					}
+					if primed {
+						continue
 					}
 					for cut := len(pre); cut < lim; cut++ {
 						c.call("Decode", b[:cut], 0)
